@@ -681,6 +681,8 @@ pub fn stream_family(r: &mut Rng, n: u64, x: &mut Exec, sink: &mut Sink, mode: &
         let rd = reader_spec(r, false);
         sink.record = Some(Vec::new());
         let evs = sink.run(x, &json!({"op":"sopen","es":es,"fileslot":"file","reader":rd}));
+        let evs0: Option<Value> = evs.first().filter(|e| e["res"]["out"] == "ok").cloned();
+        let b_bytes = b.bytes.clone();
         let mut total = 0u64;
         if let Some(ev) = evs.first() {
             total = ev["calls"].as_u64().unwrap_or(0);
@@ -690,26 +692,51 @@ pub fn stream_family(r: &mut Rng, n: u64, x: &mut Exec, sink: &mut Sink, mode: &
         // count calls after the sweep: re-issue a cheap query and read the counter
         let evs = sink.run(x, &json!({"op":"sq","name":"dynamic"}));
         if let Some(ev) = evs.first() { total = total.max(ev["calls"].as_u64().unwrap_or(0)); }
+        // targeted: A (ok), B (hard fault on its read or its seek), then C that starts exactly where A ended
+        if let Some(ev) = evs0.as_ref() {
+            let empty = vec![];
+            let ents: Vec<Value> = ev["res"]["sh"]["ents"].as_array().unwrap_or(&empty).iter()
+                .filter(|h| h.get("bad").is_none() && rd_w(&h["sh_type"]) != 8 && rd_w(&h["sh_size"]) > 0).cloned().collect();
+            let mut triples = 0;
+            for a in ents.iter() {
+                let a_end = rd_w(&a["sh_offset"]).wrapping_add(rd_w(&a["sh_size"]));
+                for c in ents.iter().filter(|c| rd_w(&c["sh_offset"]) == a_end) {
+                    for b in ents.iter().filter(|b| rd_w(&b["sh_offset"]) != a_end && rd_w(&b["sh_offset"]) != rd_w(&a["sh_offset"])).take(2) {
+                        if triples >= 6 { break; }
+                        triples += 1;
+                        sink.run(x, &json!({"op":"session","family":format!("stream-{mode}"),"scenario":"adjacent"}));
+                        sink.run(x, &sparse_buf_op("file", &b_bytes));
+                        sink.run(x, &json!({"op":"sopen","es":es,"fileslot":"file","reader":{"chunk":"full","seed":1,"faults":[]}}));
+                        let q = |h: &Value| json!({"op":"sq","name":"section_data","shdr":h.clone()});
+                        sink.run(x, &q(a));
+                        let mut qb = q(b); qb["faults"] = json!([[r.below(2), *r.pick(&["error", "eof"])]]);
+                        sink.run(x, &qb);
+                        sink.run(x, &q(c)); sink.run(x, &q(b)); sink.run(x, &q(c)); sink.run(x, &q(a));
+                    }
+                }
+            }
+        }
         let kinds = ["error", "eof", "short", "interrupted"];
         let mut points: Vec<(u64, &str)> = Vec::new();
         if mode == "faultall" {
             for k in 0..total { for kd in kinds.iter().take(2) { points.push((k, *kd)); } }
             for _ in 0..(total / 2) { points.push((r.below(total.max(1)), *r.pick(&kinds[2..]))); }
         } else {
-            for _ in 0..6 { points.push((r.below(total.max(1)), *r.pick(&kinds))); }
+            for _ in 0..12 { points.push((r.below(total.max(1)), *r.pick(&["error", "error", "eof", "short", "interrupted"]))); }
             points.push((0, "error"));
         }
         for (k, kind) in points {
             sink.run(x, &json!({"op":"session","family":format!("stream-{mode}"),"fault":[k, kind]}));
             sink.run(x, &sparse_buf_op("file", &b.bytes));
-            for (j, op) in script.iter().enumerate() {
-                let mut o = op.clone();
-                if j == 0 {
-                    o["reader"]["faults"] = json!([[k, kind]]);
-                    if r.chance(1, 8) { o["reader"]["perm_from"] = json!(k); }
-                }
-                sink.run(x, &o);
-            }
+            // the recorded script in its original order, or (half of the time) in a random order, so that the
+            // fault lands between arbitrary pairs of queries
+            let mut order: Vec<usize> = (1..script.len()).collect();
+            if r.chance(1, 2) { for i in (1..order.len()).rev() { let j = r.below(i as u64 + 1) as usize; order.swap(i, j); } }
+            let mut o = script[0].clone();
+            o["reader"]["faults"] = json!([[k, kind]]);
+            if r.chance(1, 8) { o["reader"]["perm_from"] = json!(k); }
+            sink.run(x, &o);
+            for i in &order { sink.run(x, &script[*i]); }
             // the same queries again on the same stream object, no new faults
             for op in script.iter().skip(1) { sink.run(x, op); }
         }
